@@ -45,6 +45,13 @@ const (
 	evSelectLostCommitted
 )
 
+// closedInternal is the value the state atomic holds once evClose has been processed. State()
+// reports it as NotConnectedState; because it is a distinct value, the guarded CAS of a LATE
+// synchronous commit (a passive accept or an in-flight dial that raced Close: NotConnected ->
+// NotSelected, then NotSelected -> Selected) can never succeed on a closed supervisor, so State()
+// stays NotConnected after Close returns.
+const closedInternal = uint32(SelectedState) + 1
+
 // base maps a *Committed event to the table event it stands for, reporting whether ev was one.
 func (ev fsmEvent) base() (fsmEvent, bool) {
 	switch ev { //nolint:exhaustive // only the three commit-backed variants map; every other event is its own base.
@@ -198,7 +205,12 @@ func transition(cur ConnState, ev fsmEvent) (ConnState, bool) {
 
 // State returns the current logical E37 state via a lock-free atomic read.
 func (s *supervisor) State() ConnState {
-	return ConnState(s.state.Load())
+	v := s.state.Load()
+	if v == closedInternal {
+		return NotConnectedState
+	}
+
+	return ConnState(v)
 }
 
 // CommitConnected performs the synchronous TCP-up commit (symmetric with CommitSelected / §7.D):
@@ -305,7 +317,7 @@ func (s *supervisor) step(ev fsmEvent) {
 	// synchronously in the commit; see the *Committed constants.
 	ev, committed := ev.base()
 
-	cur := ConnState(s.state.Load())
+	cur := s.State()
 
 	// Test seam (T24b): lets a test deterministically interpose a concurrent CommitSelected between
 	// the state.Load() above and the evT7Timeout CAS below, exercising the tie the CAS closes. nil in
@@ -357,6 +369,7 @@ func (s *supervisor) step(ev fsmEvent) {
 	if ev == evClose {
 		// Latch closed (I2) BEFORE teardown: no event queued behind this evClose may move state again.
 		s.closed = true
+		s.state.Store(closedInternal) // fence late synchronous commits: their guarded CAS can no longer match
 		if e := s.closeEpoch.Load(); e != nil {
 			e.teardown(s.resolveCloseTimeout())
 		}
